@@ -45,10 +45,19 @@ var stateKey = []byte("verif-c27-state")
 
 type recBucket struct {
 	db.Bucket
-	onSet func(k, v []byte)
+	onSet  func(k, v []byte)
+	failIn int // > 0: the failIn-th Set from now fails once (storage fault stream)
+	fired  int
 }
 
 func (b *recBucket) Set(k, v []byte) error {
+	if b.failIn > 0 {
+		b.failIn--
+		if b.failIn == 0 {
+			b.fired++
+			return fmt.Errorf("injected storage fault")
+		}
+	}
 	b.onSet(k, v)
 	return b.Bucket.Set(k, v)
 }
@@ -326,6 +335,30 @@ func (r *runner) step(o opSpec) {
 			r.fail("Flush at length %d fails: %v", n, err)
 		}
 		r.ops = append(r.ops, "SFlush")
+	case "ff":
+		// storage fault stream (direct oracle only; the model has no database errors): the Idx-th
+		// bucket write of this Flush fails once, Flush reports it (or the fault is not reached),
+		// a retried Flush must succeed, and then Recover + every WitnessFor must work ("fr", "qall")
+		var err error
+		r.bk.failIn = int(o.Idx)
+		p := hxlib.Catch(func() { err = r.a.Flush() })
+		hit := r.bk.failIn == 0 && o.Idx > 0
+		r.bk.failIn = 0
+		if p != "" {
+			r.fail("Flush with a failing bucket write at length %d panics: %s", n, p)
+			return
+		}
+		if hit && err == nil {
+			r.fail("Flush at length %d returns nil although bucket write no. %d failed", n, o.Idx)
+		}
+		if p := hxlib.Catch(func() { err = r.a.Flush() }); p != "" || err != nil {
+			r.fail("Flush retried after a failed bucket write at length %d fails: %v %s", n, err, p)
+			return
+		}
+		if hit {
+			r.nontriv = true
+		}
+		r.step(opSpec{K: "fr"})
 	case "fr":
 		var err error
 		if p := hxlib.Catch(func() { err = r.a.Flush() }); p != "" {
@@ -614,10 +647,35 @@ func emit(c *hxlib.Ctx, kind string, sc scenario) {
 	r := runScenario(sc, !c.OracleOnly)
 	cs := hxlib.Case{Kind: kind, Input: sc, Nontrivial: r.nontriv, OracleErr: r.oracle,
 		Key: fmt.Sprintf("%s|%d|%d", sc.Name, len(sc.Ops), c.Rand.Int63())}
-	if !c.OracleOnly {
+	if !c.OracleOnly && kind != "fault" { // fault scripts: direct oracle only (no database errors in the model)
 		cs.Coq = "(" + r.coqCase() + ")%uint63"
 	}
 	c.Emit(cs)
+}
+
+// storage faults during Flush: a bucket write fails once, Flush is retried, then Recover and every
+// WitnessFor must work; appends continue and the same happens again
+func genFault(rg *rand.Rand, maxLen int) scenario {
+	sc := scenario{Name: "fault"}
+	n, unflushed := 0, 0
+	rounds := 2 + rg.Intn(3)
+	for round := 0; round < rounds; round++ {
+		grow := 1 + rg.Intn(maxLen/rounds+1)
+		for i := 0; i < grow; i++ {
+			sc.Ops = append(sc.Ops, randItem(rg))
+			n++
+			unflushed += 2
+			if rg.Intn(25) == 0 {
+				sc.Ops = append(sc.Ops, opSpec{K: "flush"})
+				unflushed = 0
+			}
+		}
+		// which write fails: anywhere among the pending node writes, or the state record after them
+		k := 1 + rg.Intn(unflushed+1)
+		sc.Ops = append(sc.Ops, opSpec{K: "ff", Idx: int64(k)}, opSpec{K: "qall"})
+		unflushed = 0
+	}
+	return sc
 }
 
 func gen(c *hxlib.Ctx) {
@@ -667,6 +725,9 @@ func gen(c *hxlib.Ctx) {
 	for i := 0; i < c.N(20); i++ {
 		emit(c, "malformed", genRandom(rg, 4+rg.Intn(24), true))
 	}
+	for i := 0; i < c.N(80); i++ {
+		emit(c, "fault", genFault(rg, 2+rg.Intn(40+3*i)))
+	}
 	// canary: a genuine 5-item run whose observed verify class is falsified
 	if !c.OracleOnly {
 		r := runScenario(scenario{Ops: append(fixedItems(5), opSpec{K: "qall"})}, true)
@@ -715,7 +776,7 @@ func main() {
 	hxlib.Main(hxlib.Spec{
 		ID: "C27",
 		Rule: "a case is an operation script on one mta.Accumulator over a map database: AddHash/AddData, Flush, Flush+Recover into a fresh object, WitnessFor+Verify for every index (and one past the end), Verify of altered witnesses. " +
-			"mem-sweep and persist-sweep together visit every length 0..300 (thorough: 0..1099) and every index, before and after Flush and Flush+Recover, with appends continuing on the recovered object; random scripts add single queries and altered witnesses; malformed scripts add hashes whose length is not 32 (model/implementation comparison only). " +
+			"mem-sweep and persist-sweep together visit every length 0..300 (thorough: 0..1099) and every index, before and after Flush and Flush+Recover, with appends continuing on the recovered object; random scripts add single queries and altered witnesses; malformed scripts add hashes whose length is not 32 (model/implementation comparison only); fault scripts (direct oracle only) make one bucket write of a Flush fail once, retry the Flush, recover and query every index, then keep appending and do it again. " +
 			"Non-trivial: the script queries a witness at a length that is not 2^k-1 (some root slot is empty).",
 		Shard:    10,
 		Preamble: "From Coq Require Import Uint63.\nFrom GoloopRun Require Import Run_C27.",
